@@ -30,13 +30,17 @@ def _run(pid, tmp):
 
 
 def audit(pid):
+    """Variants and seeded changes that name the property always; the behaviour-preserving refactorings (all of them,
+    every one against this check) only with VERIF_AUDIT_BENIGN=1 - that part takes 10-20 minutes per property and its
+    last result is kept in audit/<id>.json."""
+    from concurrent.futures import ThreadPoolExecutor
+    workers = int(os.environ.get('VERIF_AUDIT_JOBS', '4'))
     out = {'variants': [], 'seeds': [], 'summary': {}}
     spec = importlib.util.spec_from_file_location('selftest', os.path.join(HERE, 'tools', 'selftest.py'))
     st = importlib.util.module_from_spec(spec)
     spec.loader.exec_module(st)
-    for var in st.V:
-        if pid not in var['checks']:
-            continue
+
+    def one_variant(var):
         tmp = _scratch()
         try:
             p = os.path.join(tmp, var['file'])
@@ -47,48 +51,41 @@ def audit(pid):
                     ok_edit = False
                 s = s.replace(old, new)
             if not ok_edit:
-                out['variants'].append({'name': var['name'], 'kind': var['kind'], 'result': 'edit anchor not found'})
-                continue
+                return {'name': var['name'], 'kind': var['kind'], 'result': 'edit anchor not found'}
             open(p, 'w').write(s)
             rc, first = _run(pid, tmp)
-            out['variants'].append({'name': var['name'], 'kind': var['kind'], 'exit': rc, 'report': first,
-                                    'as_expected': (rc == 1) if var['kind'] == 'break' and var['checks'][0] == pid else
-                                    ((rc == 0) if var['kind'] == 'benign' else None)})
+            return {'name': var['name'], 'kind': var['kind'], 'exit': rc, 'report': first,
+                    'as_expected': (rc == 1) if var['kind'] == 'break' and var['checks'][0] == pid else
+                    ((rc == 0) if var['kind'] == 'benign' else None)}
+        finally:
+            shutil.rmtree(tmp, ignore_errors=True)
+
+    def one_patch(base, name, key):
+        patch = os.path.join(base, name, 'patch.diff')
+        tmp = _scratch()
+        try:
+            subprocess.run(['git', 'init', '-q'], cwd=tmp)
+            if subprocess.run(['git', 'apply', patch], cwd=tmp, capture_output=True).returncode:
+                return {key: name, 'result': 'patch does not apply to the current tree'}
+            rc, first = _run(pid, tmp)
+            return {key: name, 'exit': rc, 'report': first}
         finally:
             shutil.rmtree(tmp, ignore_errors=True)
     sd = os.path.join(HERE, 'seeded')
-    for name in sorted(os.listdir(sd)) if os.path.isdir(sd) else []:
-        if not name.startswith(pid + '-'):
-            continue
-        patch = os.path.join(sd, name, 'patch.diff')
-        tmp = _scratch()
-        try:
-            subprocess.run(['git', 'init', '-q'], cwd=tmp)
-            if subprocess.run(['git', 'apply', patch], cwd=tmp, capture_output=True).returncode:
-                out['seeds'].append({'seed': name, 'result': 'patch does not apply to the current tree'})
-                continue
-            rc, first = _run(pid, tmp)
-            out['seeds'].append({'seed': name, 'exit': rc, 'report': first})
-        finally:
-            shutil.rmtree(tmp, ignore_errors=True)
-    # behaviour-preserving refactorings: the check must stay silent (run a few at a time)
+    seeds = [n for n in (sorted(os.listdir(sd)) if os.path.isdir(sd) else []) if n.startswith(pid + '-')]
     bd = os.path.join(HERE, 'benign')
-    names = sorted(os.listdir(bd)) if os.path.isdir(bd) else []
-
-    def one(name):
-        patch = os.path.join(bd, name, 'patch.diff')
-        tmp = _scratch()
-        try:
-            subprocess.run(['git', 'init', '-q'], cwd=tmp)
-            if subprocess.run(['git', 'apply', patch], cwd=tmp, capture_output=True).returncode:
-                return {'patch': name, 'result': 'patch does not apply to the current tree'}
-            rc, first = _run(pid, tmp)
-            return {'patch': name, 'exit': rc, 'report': first}
-        finally:
-            shutil.rmtree(tmp, ignore_errors=True)
-    from concurrent.futures import ThreadPoolExecutor
-    with ThreadPoolExecutor(max_workers=4) as ex:
-        out['benign_refactorings'] = list(ex.map(one, names))
+    benign = sorted(os.listdir(bd)) if os.path.isdir(bd) and os.environ.get('VERIF_AUDIT_BENIGN') else []
+    with ThreadPoolExecutor(max_workers=workers) as ex:
+        fv = [ex.submit(one_variant, var) for var in st.V if pid in var['checks']]
+        fs = [ex.submit(one_patch, sd, n, 'seed') for n in seeds]
+        fb = [ex.submit(one_patch, bd, n, 'patch') for n in benign]
+        out['variants'] = [f.result() for f in fv]
+        out['seeds'] = [f.result() for f in fs]
+        out['benign_refactorings'] = [f.result() for f in fb]
+    if not benign:
+        kept = os.path.join(HERE, 'audit', '%s.json' % pid)
+        out['benign_refactorings_note'] = ('not re-run in this invocation (set VERIF_AUDIT_BENIGN=1); last full result: audit/%s.json' % pid
+                                           if os.path.exists(kept) else 'not run (set VERIF_AUDIT_BENIGN=1)')
     br = [v for v in out['variants'] if v.get('kind') == 'break' and 'exit' in v]
     bn = [v for v in out['variants'] if v.get('kind') == 'benign' and 'exit' in v]
     out['summary'] = {'breaking_variants': len(br), 'breaking_detected': sum(1 for v in br if v['exit'] == 1),
@@ -99,4 +96,11 @@ def audit(pid):
                       'benign_refactorings_silent': sum(1 for b in out['benign_refactorings'] if b.get('exit') == 0),
                       'benign_refactorings_false_alarm': sum(1 for b in out['benign_refactorings'] if b.get('exit') == 1),
                       'benign_refactorings_not_analysable': sum(1 for b in out['benign_refactorings'] if b.get('exit') == 2)}
+    if benign:
+        os.makedirs(os.path.join(HERE, 'audit'), exist_ok=True)
+        with open(os.path.join(HERE, 'audit', '%s.json' % pid), 'w') as fh:
+            json.dump({'property': pid, 'what': 'quick check of this property run against every seeded change naming it, every self-test '
+                       'variant naming it and every behaviour-preserving refactoring, each applied to a scratch copy of /repo HEAD',
+                       'summary': out['summary'], 'seeds': out['seeds'], 'variants': out['variants'],
+                       'benign_refactorings': out['benign_refactorings']}, fh, indent=1)
     return out
